@@ -24,6 +24,7 @@ def literal_value(value: Any) -> str:
         return str(value) if math.isfinite(value) else f'float("{value}")'
 
     if isinstance(value, QName):
-        return f'QName("{value.text}")'
+        text = value.text.replace("\\", "\\\\").replace('"', '\\"')
+        return f'QName("{text}")'
 
     return repr(value)
